@@ -248,3 +248,29 @@ PROPS['C15']['case_files'] = ['c15']
 PROPS['C16']['tests'] = PROPS['C16']['tests'] + ['TestC15']
 PROPS['C16']['direct_files'] = ['c16timing']
 PROPS['C16']['case_files'] = [n for n in ('c16', 'c16templates', 'c16tmpl')]
+PROPS['C19'] = dict(
+    tests=['TestC19ServerHistories', 'TestC19ServerFaults', 'TestC19ServerCancel', 'TestC19ClientCancel', 'TestC19ClientHistories',
+           'TestC19ClientFaults', 'TestC19ClientLimiter'],
+    monitor_tags=set(),
+    panic_is_violation=set(),
+    rule='real server and client under testing/synctest on the counting in-memory sockets. (i) 150 / 4000 sequential server histories (generator of the '
+         'server checks: 3-27 packets, ARP responders, gaps up to 3 leases): after every packet opens = closes + 1 = 1 + sum(2 x probes + replies) with the '
+         'probes read off the ARP request frames, goroutines at baseline; after cancel opens = closes, goroutines at the pre-start baseline; the history '
+         '(probes, replies per packet) is run through the Coq model (tag 1901: opens, closes, termination, double close, opens per socket kind). '
+         '(ii) faults: the n-th open and, separately, the n-th write fails (n = 1..17) during a DISCOVER+REQUEST exchange, then a second client must get OFFER+ACK; '
+         'dclient.sendMessage (broadcast / unicast with 5 unanswered Pings) with the n-th open/write failing (n = 1..12): DHCP-socket errors returned at once, ARP-socket '
+         'errors absorbed; catchReply with a failing open; the whole client with the n-th open/write failing (n = 1..16). (iii) cancel at 200 / 5000 random virtual '
+         'instants of a running server (idle, inside the reply delay, inside probes, after the reply) and of dclient.Run against a scripted responder '
+         '(normal, silent, NAK / silence on renewal, address conflict and SetIface failure -> panicReset, unanswered ARP, 2 h lease): virtual time cancel -> return '
+         'must be 0, sockets balanced, goroutines back at baseline. 40 / 600 client lives of 1-400 s counted by the model (tag 1902). One limiter scenario (F11) '
+         'whose delay is recorded, not judged. Non-trivial = at least one socket beyond the first; distinct by full case line.',
+    trusted=['lib/arpping/arpping.go, lib/server/{run,utils,netio}.go (socket use), lib/client/dclient/{netio,dclient,sysstates,dhcpstates}.go are modelled by hand as '
+             'processes in coq/model/Res.v; tools/gofacts checks that the Close calls / closer goroutines / deferred cancels are where the model has them',
+             'lib/rsocks/vnet_verif.go counts opens and closes (a second Close of the same socket returns an error and is not counted: double closes are excluded by the theorem, not observed)',
+             'goroutine accounting is by runtime.NumGoroutine() at virtual-time quiescence (a leaked goroutine compensated by a missing one would not be seen)',
+             'the model-evaluated counts use straight-line programs assembled from the same Ping/sendUnicast/exchange blocks for the observed number of probes and replies; '
+             'the general handler programs are tied to them by the count lemmas only'],
+    assumptions=['virtual time stands for wall-clock time', 'a timer and ctx.Done() becoming ready at the same instant is resolved in favour of Done in the bound (Go picks at random; the loop then runs once more)',
+                 'descriptor leaks inside the real lib/rsocks are outside every check (PARTIAL)'],
+    timeout={'quick': 900, 'thorough': 7200},
+)
